@@ -89,6 +89,29 @@ def _binop(ex: Exec, op, a: SV, b: SV):
 
 lib.BINOP_HOOKS.insert(0, _binop)
 
+# generic pandas arithmetic (Series / frames): an abstract value determined by the operator
+# and the operands - nothing else is assumed
+pd_op = z3.Function("pd_op", S.INT, S.Val, S.Val, S.INT)
+_OPCODES = {"Add": 1, "Sub": 2, "Mult": 3, "Div": 4, "Pow": 5}
+
+
+def is_pd(v: SV) -> bool:
+    return v.ty.kind == "obj" and v.ty.cls in ("pd.DataFrame", "DataFrame", "pd.Series", "Series")
+
+
+def _binop_generic(ex: Exec, op, a: SV, b: SV):
+    if not (is_pd(a) or is_pd(b)):
+        return None
+    code = _OPCODES.get(type(op).__name__)
+    if code is None or (a.t is None or b.t is None):
+        return None
+    lib.used(ex, "pandas arithmetic on Series/frames: an abstract value determined by the operator and the two operands (pyvc/lib_frame.py)")
+    res_cls = a.ty if is_pd(a) else b.ty
+    return SV(S.mk_ref(pd_op(z3.IntVal(code), a.t, b.t)), res_cls)
+
+
+lib.BINOP_HOOKS.append(_binop_generic)
+
 
 def _attr(ex: Exec, base: SV, name: str):
     if is_df(base) and name == "T":
@@ -111,6 +134,13 @@ lib.SLICE_HOOKS.append(_slice)
 
 
 def _module_call(ex: Exec, dotted: str, node: ast.Call):
+    if dotted in ("pd.DataFrame", "pandas.DataFrame"):
+        for a in node.args:
+            ex.eval(a)
+        for k in node.keywords:
+            ex.eval(k.value)
+        lib.used(ex, "pd.DataFrame(...): a fresh frame object (contents not modelled)")
+        return SV(S.mk_ref(ex.new_obj("pd.DataFrame")), DF)
     if dotted in ("np.reshape", "numpy.reshape") and len(node.args) == 2:
         a = ex.eval(node.args[0])
         shape = node.args[1]
